@@ -171,17 +171,17 @@ func allTrue(n int) []bool {
 
 // follow: the state after the observed outcome if some coin vector explains it (explained = true),
 // else the strict model's own outcome
-func (s *xsys) follow(now *big.Int, keys []keySpec, n int64, ok bool, exc int) (*xsys, bool, bool, int) {
-	for _, c := range candidates(len(keys)) {
+func (s *xsys) follow(now *big.Int, keys []keySpec, n int64, ok bool, exc int) (ns *xsys, explained, early, xok bool, xexc int) {
+	for i, c := range candidates(len(keys)) {
 		t := s.clone()
 		xok, xexc := t.take(now, c, keys, n)
 		if xok == ok && xexc == exc {
-			return t, true, xok, xexc
+			return t, true, i > 0, xok, xexc
 		}
 	}
 	t := s.clone()
-	xok, xexc := t.take(now, nil, keys, n)
-	return t, false, xok, xexc
+	xok, xexc = t.take(now, nil, keys, n)
+	return t, false, false, xok, xexc
 }
 
 func (s *xsys) get(now *big.Int, k keySpec) (bool, stateSpec) {
